@@ -357,7 +357,11 @@ def part_c(args):
         o0 = farm.fork_call(_c_child, os.path.join(top, "e0"), store, cluster, True)
         want = o0["value"]
         if isinstance(want, str) and want.startswith("EXC") or o0["bodies"] != (["R", "M", "D"] if argpass is True else ["R", "D"]):
-            raise HarnessError("initial run of the caller/callee pair is wrong: %s" % (o0,))
+            # (never on the unchanged tree: the very first run of the pair, before any evolution step)
+            out["violations"].append(("evolve|%s|callee:%s|step:none|first-run-wrong" % (_cl(cluster), callee_kind),
+                                      "the first run of the caller/callee pair gave %r with bodies %s" % (want, o0["bodies"]),
+                                      {"part": "C", "callee": callee_kind, "cluster": cluster, "steps": [], "argpass": argpass}))
+            return out
         prev = o0
         for k, st in enumerate(steps):
             P = apply_step(P, st, base)
@@ -442,8 +446,11 @@ def part_c_inproc(args):
             progs.append(nxt)
         obs = farm.fork_call(_c_inproc_child, top, os.path.join(top, "store"), cluster, progs)
         want = obs[0]["value"]
-        if obs[0]["bodies"] != (["R", "M", "D"] if argpass is True else ["R", "D"]):
-            raise HarnessError("initial in-process run is wrong: %s" % (obs[0],))
+        if obs[0]["bodies"] != (["R", "M", "D"] if argpass is True else ["R", "D"]) or (isinstance(want, str) and want.startswith("EXC")):
+            out["violations"].append(("evolve-inproc|%s|callee:%s|step:none|first-run-wrong" % (_cl(cluster), callee_kind),
+                                      "the first run of the caller/callee pair gave %r with bodies %s" % (want, obs[0]["bodies"]),
+                                      {"part": "C", "callee": callee_kind, "cluster": cluster, "steps": [], "inproc": True, "argpass": argpass}))
+            return out
         for k in range(1, len(obs)):
             bad = judge_c(obs[k], want, obs[k - 1], obs[0], "recluster" in steps[:k])
             if bad:
